@@ -12,6 +12,14 @@ multisets of component ids (+ nones_are_zeros flags + fallback formulas) and
       pool formulas for sub-pools;
   correspondence: the same trees through the Lean driver; signed multisets, flags, fallbacks,
       errors and the regime predicates must be equal.
+
+Two further streams: (a) chained DC wiring — batteries shared between battery inverters with the same
+predecessor (battery/inverter DAGs; the model lists a shared battery id under several inverters); (b) histories
+on ONE long-lived `_MicrogridComponentGraph`: a sequence of topologies over one id space in which meters change
+role, installed with `refresh_from`, all formulas generated after each refresh.  Oracle for (b): the formulas
+generated on the refreshed object equal those of a fresh graph of the same topology AND balance; the model side
+is `C12_history_free` (generation after any history = generation on the last topology), so the refreshed
+object's output is compared with the model of the last topology.
 """
 from __future__ import annotations
 
@@ -27,7 +35,10 @@ RULE = ("component trees (grid root; meters nested to depth <= 4; battery invert
         "meters dedicated to one device type; one random assignment of device powers / unmetered loads and random "
         "battery/PV/EV sub-pools per tree; thorough adds every tree shape with <= 6 nodes; a malformed stream "
         "(unmetered CHPs, inverters without batteries, partial battery selections) is compared with the model only; "
-        "non-trivial = at least one meter with successors and two device kinds; distinct by canonical JSON hash")
+        "non-trivial = at least one meter with successors and two device kinds; distinct by canonical JSON hash; "
+        "plus ~10% trees with a DC bus (2-4 sibling battery inverters sharing batteries in a chain) and ~12% histories "
+        "of 2-3 topologies on one graph object (devices added/removed/exchanged below a meter, grid successors "
+        "added/removed; refresh_from between them; formulas generated after every refresh)")
 
 CLAUSES = ("grid", "consumer", "producer", "battery", "pv_dfs", "pv", "ev", "chp")
 
@@ -102,6 +113,15 @@ def tags_of(case: dict, adm: bool) -> tuple[list[str], bool]:
     kinds = {n["k"] for n in nodes}
     tags = set()
     tags.add("single-grid-successor" if len(case["succ"]) == 1 else "several-grid-successors")
+    sh = g.shared_batteries(case)
+    if sh != "none":
+        tags.add(f"shared-batteries-{sh}")
+    if case.get("history"):
+        tags.add(f"history-{len(case['history'])}-refreshes")
+        roles = [{n["id"]: (g.one_kind(n["c"]) or ("load" if not n["c"] else "mixed")) for n in g.all_nodes(t) if n["k"] == "meter"}
+                 for t in list(case["history"]) + [case]]
+        if any(a[i] != b[i] for a, b in zip(roles, roles[1:]) for i in a if i in b):
+            tags.add("history-meter-changes-role")
     if g.py_regimes(case)["grid_meters"]:
         tags.add("grid-meters")
     else:
@@ -124,12 +144,22 @@ def tags_of(case: dict, adm: bool) -> tuple[list[str], bool]:
 
 
 def check_case(ctx: Ctx, case: dict) -> dict:
-    out, engines = g.run_impl(case)
-    adm = g.admissible(case)
+    if case.get("history"):
+        # one long-lived graph object: must generate what a fresh graph of the same topology generates
+        out, engines = g.run_history(case)
+        fresh, _ = g.run_impl(case)
+        if out != fresh:
+            diff = {k: {"refreshed_graph": out[k], "fresh_graph": fresh[k]} for k in out if out[k] != fresh[k]}
+            ctx.violation("history: formulas generated on a refreshed graph object differ from those of a fresh graph "
+                          "of the same topology", strip(case), diff)
+    else:
+        out, engines = g.run_impl(case)
+    # inside the quantifier: batteries are shared only between inverters behind the same predecessor
+    adm = g.admissible(case) and g.shared_batteries(case) != "across"
     if adm:
         oracle(ctx, case, out, engines)
     tags, nontrivial = tags_of(case, adm)
-    ctx.case({k: case[k] for k in ("grid", "succ", "bat", "pv", "ev")}, tags=tags, nontrivial=nontrivial)
+    ctx.case({k: case.get(k) for k in ("grid", "succ", "bat", "pv", "ev", "history")}, tags=tags, nontrivial=nontrivial)
     return g.model_view(out, g.py_regimes(case))
 
 
@@ -155,6 +185,18 @@ def complete(rng, case: dict) -> dict:
     return case
 
 
+def history_cases(rng, steps: int) -> list[dict]:
+    """One history t0 … t_steps -> a case per refresh (the topology held now + the topologies held before)."""
+    topos = g.gen_history(rng, steps)
+    made = [g.make_case(rng, t) for t in topos]
+    out = []
+    for i in range(1, len(made)):
+        case = dict(made[i])
+        case["history"] = [{k: made[j][k] for k in ("grid", "succ", "bat", "pv", "ev")} for j in range(i)]
+        out.append(case)
+    return out
+
+
 def run(ctx: Ctx) -> None:
     python_flags()
     ctx.rule = RULE
@@ -178,6 +220,39 @@ def run(ctx: Ctx) -> None:
         case = g.make_case(rng, tree)
         cases.append(case)
         impl_outs.append(check_case(ctx, case))
+    for i in range(n // 10):
+        rng = ctx.subrng("dc-bus", i)
+        case = g.make_case(rng, g.gen_dc_bus(rng))
+        cases.append(case)
+        impl_outs.append(check_case(ctx, case))
+    for i in range(n // 16):
+        rng = ctx.subrng("history", i)
+        for case in history_cases(rng, rng.randint(1, 2)):
+            cases.append(case)
+            impl_outs.append(check_case(ctx, case))
+    if ctx.tier == "thorough" or ctx.boost > 1:
+        rng = ctx.subrng("dc-exhaustive")
+        count = 0
+        # every wiring of <= 3 sibling battery inverters (each with its own battery, optionally also on the batteries of
+        # the others) below the grid / a grid meter / a nested battery meter
+        import itertools
+        for k in (2, 3):
+            pairs = [(i, j) for i in range(k) for j in range(k) if i != j]
+            for extra in itertools.product((False, True), repeat=len(pairs)):
+                for place in range(3):
+                    invs = [{"k": "batInv", "id": 0, "bats": [0]} for _ in range(k)]
+                    succ = invs if place == 0 else [{"k": "meter", "id": 0, "c": invs}] if place == 1 else \
+                        [{"k": "meter", "id": 0, "c": [{"k": "meter", "id": 0, "c": invs}, {"k": "ev", "id": 0}]}]
+                    tree = g.assign_ids(rng, {"grid": 0, "succ": succ}, spread=20)
+                    own = [n["bats"][0] for n in invs]
+                    for (i, j), e in zip(pairs, extra):
+                        if e:
+                            invs[i]["bats"].append(own[j])
+                    case = g.make_case(rng, tree)
+                    cases.append(case)
+                    impl_outs.append(check_case(ctx, case))
+                    count += 1
+        ctx.extra["exhaustive_dc_wirings_le_3_inverters"] = count
     if ctx.tier == "thorough" or ctx.boost > 1:
         rng = ctx.subrng("exhaustive")
         count = 0
@@ -191,6 +266,25 @@ def run(ctx: Ctx) -> None:
         ctx.extra["exhaustive_trees_le_6_nodes"] = count
     ctx.compare("Graph", [driver_case(c) for c in cases], impl_outs, what="formula generators: signed multisets, flags, fallbacks, regimes")
     probe_grid_meter_load(ctx)
+    probe_battery_shared_across_meters(ctx)
+
+
+def probe_battery_shared_across_meters(ctx: Ctx) -> None:
+    """Evidence only (outside the quantifier as read here: batteries are shared only behind one predecessor).  A battery
+    on two inverters behind DIFFERENT battery meters: the fallback formula of each meter is the battery formula of the
+    meter's batteries and therefore contains the inverter behind the other meter.  Recorded, never a violation."""
+    case = {"grid": 1, "succ": [{"k": "meter", "id": 2, "c": [
+        {"k": "meter", "id": 3, "c": [{"k": "batInv", "id": 4, "bats": [10]}]},
+        {"k": "meter", "id": 7, "c": [{"k": "batInv", "id": 5, "bats": [10]}]}]}], "bat": None, "pv": None, "ev": None}
+    out, engines = g.run_impl(case)
+    power, load = {4: Fraction(5), 5: Fraction(3)}, {2: Fraction(1), 3: Fraction(0), 7: Fraction(0)}
+    env = g.readings(case, power, load)
+    off = []
+    for t in (out["battery"].get("terms") or []):
+        if t[3] and sum((env[i] for i, _ in t[3]), Fraction(0)) != env[t[1]]:
+            off.append({"primary": t[1], "reads": rat(env[t[1]]), "fallback": [i for i, _ in t[3]],
+                        "fallback_sum": rat(sum((env[i] for i, _ in t[3]), Fraction(0)))})
+    ctx.extra["probe_battery_shared_across_meters"] = {"battery_formula": out["battery"], "fallbacks_off": off}
 
 
 def probe_grid_meter_load(ctx: Ctx) -> None:
